@@ -27,6 +27,7 @@ type Msg struct {
 	wire   []byte // marshalled protobuf (wire mode)
 	sym    string
 	forged bool // crafted by the adversary (not produced by a real stack)
+	anon   int  // 0: the sender's connection metadata names it; 1: no "id" entry; 2: an id that is no configured replica
 	n      uint64
 }
 
@@ -441,6 +442,13 @@ func (nd *Node) inject(m *Msg) {
 	w := nd.w
 	if m.wire != nil {
 		ctx := gorums.ServerCtx{Context: peerCtx(w.ctx, m.fromID)}
+		switch m.anon {
+		case 1:
+			// without TLS the identity of the sender is what its own connection metadata says: here it says nothing
+			ctx = gorums.ServerCtx{Context: metadata.NewIncomingContext(peer.NewContext(w.ctx, &peer.Peer{}), metadata.Pairs("x", "y"))}
+		case 2:
+			ctx = gorums.ServerCtx{Context: peerCtx(w.ctx, hotstuff.ID(w.plan.N+7))}
+		}
 		switch m.kind {
 		case "propose":
 			pb := &hotstuffpb.Proposal{}
